@@ -165,6 +165,45 @@ async def received_notification(state, code, sub, data=b''):
         sess.cleanup()
 
 
+async def first_message_fault(name, data, expected):
+    """a neighbor with `local-as auto` mirrors the AS of the peer: ExaBGP reads the peer's OPEN BEFORE sending its own,
+    so the first message of the peer arrives while nothing was sent yet.  A fault in it is answered all the same."""
+    sess = S.Session(local_as='auto')
+    inp = {'state': 'connected, our OPEN not sent yet (local-as auto)', 'fault': name, 'bytes': data.hex()[:200]}
+    try:
+        sess.start()
+        await asyncio.sleep(0.1)
+        if any(e[0] == 'sent' for e in sess.log):
+            return {'what': 'harness: ExaBGP sent something before reading (local-as auto does not read first any more)', 'input': inp, 'harness': True}
+        await sess.remote.send(data)
+        written = await sess.remote.drain_until_close(timeout=4.0)
+        done = await sess.finish()
+        return judge(sess, written, expected, inp, done, answered_notification=False)
+    finally:
+        sess.cleanup()
+
+
+async def received_big_notification(state, size):
+    """extended messages negotiated (RFC 8654): a NOTIFICATION longer than 4096 octets is a valid message, and it is a
+    NOTIFICATION: nothing is written in answer"""
+    sess = S.Session(extra='capability { extended-message enable; }')
+    inp = {'state': state, 'fault': f'NOTIFICATION 6/2 of {size} octets received, extended messages negotiated'}
+    caps = bytes([1, 4, 0, 1, 0, 1]) + bytes([2, 0]) + bytes([6, 0]) + bytes([65, 4]) + struct.pack('!L', 65002)
+    try:
+        try:
+            await sess.to_state(state, peer_open=S.open_msg(caps=caps))
+        except RuntimeError as e:
+            return {'what': f'harness could not reach {state}: {e}', 'input': inp, 'harness': True}
+        if sess.conn.msg_size != 65535:
+            return {'what': f'harness: extended messages were not negotiated (msg_size {sess.conn.msg_size})', 'input': inp, 'harness': True}
+        await sess.remote.send(S.msg(3, bytes([6, 2]) + b'x' * (size - 21)))
+        written = await sess.remote.drain_until_close(timeout=4.0)
+        done = await sess.finish()
+        return judge(sess, written, None, inp, done, True)
+    finally:
+        sess.cleanup()
+
+
 # a NOTIFICATION shorter than 21 bytes is a header error under RFC 4271 6.1 (Bad Message Length, 1/2), which is reported;
 # section 6.4 only forbids reporting an error found INSIDE a NOTIFICATION.  Both silence and 1/2 are accepted.
 STATES = ('OPENSENT', 'OPENCONFIRM', 'ESTABLISHED')
@@ -180,6 +219,12 @@ def all_cases(tier):
     for st in STATES:
         cases.append((f'{st}: notification 6/2 received', lambda st=st: received_notification(st, 6, 2, b'\x04test')))
         cases.append((f'{st}: notification of 20 bytes received', lambda st=st: received_notification_raw(st, S.msg(3, b'\x06'))))
+    fs = faults()
+    for name, want in (('bad marker', (1, 1)), ('length 18', (1, 2)), ('unknown message type 9', (1, 3)), ('open version 3', (2, 1)), ('keepalive before the open', (5, 1)), ('open of 24 bytes', (1, 2))):
+        cases.append((f'local-as auto, first message: {name}', lambda name=name, want=want: first_message_fault(name, fs[name][0], want)))
+    for st in ('OPENCONFIRM', 'ESTABLISHED'):
+        for size in (4096, 4097, 5021, 65535):
+            cases.append((f'{st}: notification of {size} octets received, extended messages negotiated', lambda st=st, size=size: received_big_notification(st, size)))
     for code in (2, 3, 4):
         cases.append((f'ESTABLISHED: api teardown {code}', lambda code=code: teardown(code)))
         cases.append((f'ESTABLISHED: api teardown {code}, peer announced graceful restart', lambda code=code: teardown(code, True)))
